@@ -590,6 +590,127 @@ let directed r k (e : enc) : op list option =
                     Set (0, 3, 0x31, Ir (0, 0, 2)); Sib (0, 1, true); Sib (0, 0, true) ]
             @ (if k = 40 || (k = 18 && rand_bool r) then [ Set (0, 3, 0x3a, Fi (Some 1)) ] else []))
 
+(* wide sibling lists: a root with 21..80 children, base types interleaved at arbitrary positions (also first /
+   last), every child distinguishable by name, structs with 30+ members, references to and from the base types.
+   reorder_base_types must be the STABLE partition whatever the width. *)
+let gen_wide r ~(mode : int) : op list =
+  let nunits = if mode = 2 then 1 else 1 + rand_int r 2 in
+  let ops = ref [] in
+  let push o = ops := o :: !ops in
+  let encs = Array.init nunits (fun _ -> (pick r [| 2; 3; 4; 5 |], rand_bool r, pick r [| 4; 8 |])) in
+  let next = Array.make nunits 1 in
+  let bases = Array.make nunits [] and others = Array.make nunits [] in
+  let name i = Str [0x41 + (i mod 26); 0x30 + ((i / 26) mod 40); 0x61 + (i / 1040)] in
+  let add u parent tag =
+    let id = next.(u) in
+    push (E (u, parent, tag)); next.(u) <- id + 1;
+    push (Set (u, id, 0x03, name id)); id in
+  let build u =
+    let nroot = match rand_int r 4 with 0 -> 21 + rand_int r 4 | _ -> 21 + rand_int r 60 in
+    let pat = rand_int r 6 in
+    let one = 1 + rand_int r (nroot - 1) in
+    let is_base i = match pat with
+      | 0 | 5 -> rand_int r 3 = 0
+      | 1 -> i = nroot - 1
+      | 2 -> i = 0 || (i < nroot - 1 && rand_int r 4 = 0)
+      | 3 -> i mod 2 = 1
+      | _ -> i = one in
+    for i = 0 to nroot - 1 do
+      if is_base i then begin
+        let id = add u 0 0x24 in
+        bases.(u) <- id :: bases.(u);
+        push (Set (u, id, 0x3e, K (0, Z.of_int (pick r [| 1; 2; 4; 5; 7; 8 |]))));
+        push (Set (u, id, 0x0b, Ud (Z.of_int (pick r [| 1; 2; 4; 8; 16 |]))))
+      end else begin
+        let id = add u 0 (pick r [| 0x2e; 0x34; 0x13; 0x16; 0x0f; 0x39; 0x17; 0x04 |]) in
+        others.(u) <- id :: others.(u)
+      end
+    done;
+    let all_root = bases.(u) @ others.(u) in
+    let anyof l = List.nth l (rand_int r (List.length l)) in
+    (* references to and from the base types *)
+    List.iter (fun id ->
+      if bases.(u) <> [] && rand_bool r then push (Set (u, id, 0x49, Ur (u, anyof bases.(u))))) others.(u);
+    List.iter (fun id ->
+      if rand_int r 5 = 0 then push (Set (u, id, 0x3a0c, Ur (u, anyof all_root)))) bases.(u);
+    if bases.(u) <> [] then push (Set (u, 0, 0x3a0c, Ur (u, anyof bases.(u))));
+    (* wide lists one level down: structs with 30+ members, some nested, with sibling pointers *)
+    if others.(u) <> [] then
+      for _ = 1 to 1 + rand_int r 2 do
+        let s = anyof others.(u) in
+        let k = 30 + rand_int r 25 in
+        for m = 1 to k do
+          let id = add u s (if rand_int r 9 = 0 then 0x24 else 0x0d) in
+          if bases.(u) <> [] && rand_int r 3 <> 0 then push (Set (u, id, 0x49, Ur (u, anyof bases.(u))));
+          push (Set (u, id, 0x38, Ud (Z.of_int (m * 4))));
+          if rand_int r 12 = 0 then begin
+            let g = add u id 0x0d in
+            push (Set (u, g, 0x49, Ur (u, s))); push (Sib (u, id, true))
+          end
+        done;
+        push (Sib (u, s, rand_int r 4 <> 0))
+      done;
+    if rand_bool r then push (Sib (u, 0, true)) in
+  push (U (encs.(0), None));
+  build 0;
+  if nunits = 2 then begin
+    if mode = 1 && rand_bool r then push W;
+    push (U (encs.(1), None));
+    build 1;
+    (* ref_addr references to base types of the other unit *)
+    if bases.(0) <> [] then
+      List.iter (fun id -> if rand_int r 4 = 0 then
+        push (Set (1, id, 0x31, Ir (0, 0, List.nth bases.(0) (rand_int r (List.length bases.(0))))))) others.(1)
+  end;
+  List.rev !ops
+
+(* boundary sizes: a few big cases (ignore n except the huge one) *)
+let sized_cases r ~(n : int) : (bool * int * op list) list =
+  let e4 = (4, false, 8) and e5 = (5, true, 4) in
+  let big len = List.init len (fun i -> 1 + ((i * 7 + 3) mod 255)) in
+  [ (* > 255 distinct abbreviations (codes 1..300), references across them *)
+    (false, 0,
+     [ U (e4, None) ] @ List.init 300 (fun i -> E (0, 0, 0x100 + i))
+     @ List.concat (List.init 300 (fun i -> if i mod 4 = 0 then [ Set (0, i + 1, 0x49, Ur (0, 300 - i)) ] else []))
+     @ [ Set (0, 0, 0x49, Ur (0, 300)); Sib (0, 0, true) ]);
+    (* .debug_str beyond 2^16 bytes: 70 strings of ~1000 bytes, references to the last ones; > 255 string ids *)
+    (rand_bool r, 0,
+     [ U (e5, None); E (0, 0, 0x2e); E (0, 0, 0x34) ]
+     @ List.init 70 (fun i -> S (big (990 + i)))
+     @ List.init 260 (fun i -> S [0x61 + (i mod 26); 0x41 + (i / 26)])
+     @ [ Set (0, 1, 0x03, St 69); Set (0, 2, 0x03, St 66); Set (0, 0, 0x03, St 329); Set (0, 2, 0x6e, St 0);
+         Set (0, 1, 0x6e, St 300) ]);
+    (* a unit beyond 64 KiB: entry offsets, sibling pointers and unit references above 0xffff; block and
+       expression lengths at the 2-/3-byte ULEB boundary (16383 / 16384); a second unit behind it *)
+    (rand_bool r, 0,
+     [ U (e4, None); U ((3, false, 4), None);
+       E (0, 0, 0x2e); E (0, 1, 0x34); E (0, 0, 0x24); E (0, 0, 0x2e); E (0, 4, 0x05); E (1, 0, 0x2e);
+       Set (0, 2, 0x1c, Blk (big 16383)); Set (0, 2, 0x3a02, Blk (big 16384)); Set (0, 2, 0x02, Ex (List.init 16384 (fun _ -> 0x96)));
+       Set (0, 1, 0x1c, Blk (big 40000)); Set (0, 1, 0x03, Str (big 300));
+       Sib (0, 1, true); Sib (0, 4, true); Sib (0, 0, true);
+       Set (0, 1, 0x49, Ur (0, 5)); Set (0, 5, 0x49, Ur (0, 3)); Set (0, 0, 0x3a0c, Ur (0, 4));
+       Set (0, 4, 0x31, Ir (1, 1, 1)); Set (1, 1, 0x31, Ir (0, 0, 5)); Set (1, 1, 0x49, Ur (1, 0)) ]);
+    (* file indices beyond 127 (2-byte ULEB), DWARF 4 and 5 numbering *)
+    (false, 0,
+     [ U (e4, Some (e4, 140)); E (0, 0, 0x2e); E (0, 0, 0x34); Set (0, 1, 0x3a, Fi (Some 127)); Set (0, 2, 0x3a, Fi (Some 139));
+       Set (0, 2, 0x58, Fi (Some 126)) ]);
+    (true, 0,
+     [ U ((5, false, 8), Some ((5, false, 8), 140)); E (0, 0, 0x2e); E (0, 0, 0x34); Set (0, 1, 0x3a, Fi (Some 128));
+       Set (0, 2, 0x3a, Fi (Some 140)); Set (0, 2, 0x58, Fi (Some 127)) ]);
+    (* twelve units with a ring of ref_addr references (long fix-up list, offsets in every unit) *)
+    (false, 0,
+     List.init 12 (fun u -> U ((2 + (u mod 4), u mod 3 = 0, if u mod 2 = 0 then 8 else 4), None))
+     @ List.concat (List.init 12 (fun u -> [ E (u, 0, 0x24); E (u, 0, 0x2e) ]))
+     @ List.concat (List.init 12 (fun u -> [ Set (u, 2, 0x31, Ir ((u + 1) mod 12, (u + 1) mod 12, 1));
+                                              Set (u, 1, 0x3a08, Ir ((u + 5) mod 12, (u + 5) mod 12, 2)) ])))
+  ]
+  @ (if n >= 50000 then
+       (* thorough only: more than 16383 distinct abbreviations (3-byte codes) *)
+       [ (false, 0,
+          [ U (e4, None) ] @ List.init 16500 (fun i -> E (0, 0, 0x100 + i))
+          @ [ Set (0, 0, 0x49, Ur (0, 16500)); Set (0, 16500, 0x49, Ur (0, 16384)); Set (0, 16384, 0x49, Ur (0, 1)) ]) ]
+     else [])
+
 let () =
   register "c11.units" ~doc:"API scripts against gimli::write: section bytes = model bytes; the harness also reads the sections back and compares the semantic dump with the script's meaning"
     (fun ~seed ~n emit ->
@@ -618,6 +739,10 @@ let () =
               @ (if i mod 11 = 0 then [ Sib (0, i + 1, true) ] else [])))
           @ [ Set (0, 0, 0x49, Ur (0, nn)); Sib (0, 0, true) ] in
         case be 0 ops) [false; true]) [false; true]) [2; 4; 5];
+      (* boundary sizes *)
+      List.iter (fun (be, mode, ops) -> case be mode ops) (sized_cases r ~n);
+      (* wide roots, fixed share *)
+      for _ = 1 to 64 do let mode = pick r [| 0; 0; 1; 2 |] in case (rand_bool r) mode (gen_wide r ~mode) done;
       (* odd encodings *)
       for k = 0 to kinds - 1 do
         List.iter (fun e -> match directed r k e with Some ops -> case false 0 ops | None -> ())
@@ -626,7 +751,7 @@ let () =
       for _ = 1 to n do
         let mode = match rand_int r 10 with 0 | 1 | 2 -> 1 | 3 -> 2 | _ -> 0 in
         let be = rand_bool r in
-        let ops = gen_script r ~multi_lp:false ~mode in
+        let ops = if rand_int r 10 = 0 then gen_wide r ~mode else gen_script r ~multi_lp:false ~mode in
         case be mode ops
       done);
   register "c11.sem" ~doc:"API scripts with several line programs: semantic read-back oracle only (dump predicted from the script = dump of the written sections)"
@@ -636,7 +761,7 @@ let () =
       for _ = 1 to n do
         let mode = match rand_int r 10 with 0 | 1 | 2 -> 1 | 3 -> 2 | _ -> 0 in
         let be = rand_bool r in
-        let ops = gen_script r ~multi_lp:true ~mode in
+        let ops = if rand_int r 10 = 0 then gen_wide r ~mode else gen_script r ~multi_lp:true ~mode in
         emit (Printf.sprintf "c11.sem %s %d %s" (sb be) mode (s_script ops)) "ok" "ok"
       done);
   register "c11.misuse" ~doc:"references that cannot be encoded (an id that was reserved but never added and lies beyond the entries vector — Err since c42c00d; an entry id issued by another unit — known finding): the property demands Err"
